@@ -414,6 +414,9 @@ func vpHistory(t *testing.T, penc, eenc *json.Encoder, hist int, rng *rand.Rand,
 		if kind == "big" {
 			nout = 24 + rng.Intn(10)
 		}
+		if kind == "null-out" {
+			nout = 1 + rng.Intn(3) + rng.Intn(2) // the null address at any position of 1..4 outputs
+		}
 		unit := uint64(1e6)
 		if kind == "precision" {
 			unit = []uint64{1, 10, 100, 1000, 10000, 100000}[rng.Intn(6)]
@@ -527,7 +530,7 @@ func vpHistory(t *testing.T, penc, eenc *json.Encoder, hist int, rng *rand.Rand,
 		emit(r)
 	}
 
-	kindsList := []string{"normal", "normal", "normal", "fee-exact", "fee-exact", "fee-minus-one", "zero-fee", "hours-over", "precision", "precision", "locked", "null-out",
+	kindsList := []string{"normal", "normal", "normal", "fee-exact", "fee-exact", "fee-minus-one", "zero-fee", "hours-over", "precision", "precision", "locked", "null-out", "null-out",
 		"bad-sig", "unknown-input", "spent-input", "big", "hours-overflow", "conflict", "conflict", "chain", "coins-created"}
 	var lastTxns []coin.Transaction
 	for round := 0; round < nrounds; round++ {
@@ -624,7 +627,7 @@ func vpHistory(t *testing.T, penc, eenc *json.Encoder, hist int, rng *rand.Rand,
 				}
 			}
 			for _, txn := range batch {
-				inject(P, txn, rng.Intn(3) == 0)
+				inject(P, txn, rng.Intn(3) == 0 || (kinds[txn.Hash().Hex()] == "null-out" && rng.Intn(4) > 0))
 				if rng.Intn(3) == 0 {
 					inject(F, txn, false)
 				}
